@@ -193,19 +193,33 @@ fn an_error() -> expression_engine::Result<Value> {
     Value::None.decimal().map(Value::Number)
 }
 
+/// handlers with id >= 900 own a value whose Drop takes 150 ms (replacing such a handler keeps whoever drops it busy)
+pub struct SlowDrop(pub u32);
+impl Drop for SlowDrop {
+    fn drop(&mut self) {
+        if self.0 >= 900 {
+            std::thread::sleep(std::time::Duration::from_millis(150));
+        }
+    }
+}
+
 pub fn register_infix(name: &str, prec: i32, setter: bool, right: bool, hid: u32) {
     let ty = if setter { InfixOpType::SETTER } else { InfixOpType::CALC };
     let assoc = if right { InfixOpAssociativity::RIGHT } else { InfixOpAssociativity::LEFT };
-    expression_engine::register_infix_op(name, prec, ty, assoc, Arc::new(move |a, b| invoke(hid, vec![a, b])));
+    let g = SlowDrop(hid);
+    expression_engine::register_infix_op(name, prec, ty, assoc, Arc::new(move |a, b| { let keep = &g; invoke(keep.0, vec![a, b]) }));
 }
 pub fn register_prefix(name: &str, hid: u32) {
-    expression_engine::register_prefix_op(name, Arc::new(move |a| invoke(hid, vec![a])));
+    let g = SlowDrop(hid);
+    expression_engine::register_prefix_op(name, Arc::new(move |a| { let keep = &g; invoke(keep.0, vec![a]) }));
 }
 pub fn register_postfix(name: &str, hid: u32) {
-    expression_engine::register_postfix_op(name, Arc::new(move |a| invoke(hid, vec![a])));
+    let g = SlowDrop(hid);
+    expression_engine::register_postfix_op(name, Arc::new(move |a| { let keep = &g; invoke(keep.0, vec![a]) }));
 }
 pub fn register_function(name: &str, hid: u32) {
-    expression_engine::register_function(name, Arc::new(move |args| invoke(hid, args)));
+    let g = SlowDrop(hid);
+    expression_engine::register_function(name, Arc::new(move |args| { let keep = &g; invoke(keep.0, args) }));
 }
 pub fn set_ctx_func(c: u32, name: &str, hid: u32) {
     let mut cx = ctx(c);
